@@ -107,6 +107,9 @@ func (in *Interp) Assume(c *smt.Term) {
 		panic(pathEnd{"assumption infeasible"})
 	case smt.Unknown:
 		p.feasUnknown = true
+		if traceBranches {
+			fmt.Fprintf(os.Stderr, "UNKNOWN assume at %s\n", in.curLoc())
+		}
 	}
 	in.assumeRaw(c)
 }
@@ -149,6 +152,9 @@ func (in *Interp) branch(c *smt.Term) bool {
 		}
 	case smt.Unknown:
 		p.feasUnknown = true
+		if traceBranches {
+			fmt.Fprintf(os.Stderr, "UNKNOWN branch at %s\n", in.curLoc())
+		}
 		if p.sess.CheckPop(in.C.Not(c)) == smt.Unsat {
 			canF = false
 		}
